@@ -10,137 +10,325 @@ import (
 )
 
 // Translation of the member filter (cmd/serf/command/agent/ipc.go) into the vocabulary of
-// SerfModel/Model/Regex.lean (CompileStep, Guard, FilterShape):
-//   - compileAnchored(expr), statement by statement:
-//     if _, err := regexp.Compile(<param>); err != nil { return nil, err }   → .validateAlone
-//     return regexp.Compile(fmt.Sprintf(<string literal>, <param>))            → .wrap <format>
-//     any other statement is an error;
-//   - filterMembers: every place a filter expression is compiled ("site": variable, argument, how —
-//     compileAnchored or the pre-990828f `Sprintf:<format>` paste-then-compile), the tag pre-compile loop
-//     (for tag, expr := range tags { re, err := <site>(expr); …; tagsRe[tag] = re }), the first result of every
-//     `return` under `if err != nil` (must be nil: no list on error);
-//   - the member loop, guard by guard:
-//     for tag := range tags { if !tagsRe[tag].MatchString(m.Tags[tag]) { continue OUTER } }                         → .tags .valueOrEmpty
-//     for tag, re := range tagsRe { val, ok := m.Tags[tag]; if !ok || !re.MatchString(val) { continue OUTER } }       → .tags .presentOnly
-//     if [status != "" &&] !statusRe.MatchString(m.Status.String()) { continue }                                      → .field .status <bool>
-//     if [name != "" &&] !nameRe.MatchString(m.Name) { continue }                                                     → .field .name <bool>
-//     result = append(result, m)                                                                                       (last)
-//     where statusRe / nameRe must be the variables compiled from status / name; anything else is an error;
-//   - handleMembers: the statement following `raw, err = i.filterMembers(…)` (must return the error before any Send).
+// SerfModel/Model/Regex.lean (CompileStep, Guard, FilterShape).
+//
+// The translation goes by MEANING, not by text: locals, parameters, the receiver, the loop label
+// and the helper may have any names (roles are discovered from how a variable is defined), string
+// literals may be hoisted into function-local or package constants, `fmt.Sprintf(f, x)` may be
+// written as a concatenation, `p != ""` as `len(p) > 0` / `len(p) != 0`, `a && b` guards as nested
+// ifs, `for _, m := range ms` as `for i := range ms { m := ms[i] … }`, the validate-alone step as
+// an if with init / two statements / a flipped if-else, the helper may be inlined at the call
+// sites, error messages are irrelevant.  What is pinned is what the theorems need:
+//
+//   - how a filter expression becomes a compiled expression: [.validateAlone, .wrap <format>] …
+//   - which expressions are compiled (every tag value, status, name), each error return carrying a
+//     nil list, the tag loop storing exactly one compiled expression per requested tag;
+//   - the member loop, guard by guard (.tags .valueOrEmpty | .tags .presentOnly | .field f skip),
+//     each guard using the expression compiled from ITS filter on ITS subject, the survivor appended last;
+//   - handleMembers returning the filter's error before anything is sent.
+//
+// Anything else is an error (the check then reports a broken obligation and looks for a failing input).
 
-// sprintfTemplate recognises regexp.Compile(fmt.Sprintf(<lit>, <ident>)).
-func sprintfTemplate(x *ast.CallExpr) (format, arg string, ok bool) {
-	if exprString(x.Fun) != "regexp.Compile" || len(x.Args) != 1 {
-		return "", "", false
-	}
-	sp, ok := x.Args[0].(*ast.CallExpr)
-	if !ok || exprString(sp.Fun) != "fmt.Sprintf" || len(sp.Args) != 2 {
-		return "", "", false
-	}
-	lit, ok1 := sp.Args[0].(*ast.BasicLit)
-	id, ok2 := sp.Args[1].(*ast.Ident)
-	if !ok1 || !ok2 || lit.Kind != token.STRING {
-		return "", "", false
-	}
-	s, err := strconv.Unquote(lit.Value)
-	if err != nil {
-		return "", "", false
-	}
-	return s, id.Name, true
+type fmCtx struct {
+	consts                      map[string]string // constant name → string value
+	members, tags, status, name string            // parameter names
+	result, tagsRe              string
+	siteArg                     map[string]string // compiled-expression variable → role ("status", "name")
+	helpers                     map[string][]string
 }
 
-func helperSteps(fd *ast.FuncDecl) ([]string, error) {
-	if sig := exprString(fd.Type); sig != "func(expr string) (*regexp.Regexp, error)" {
-		return nil, fmt.Errorf("compileAnchored signature %s", sig)
+// strLit resolves a string literal or a constant with a string value.
+func (c *fmCtx) strLit(e ast.Expr) (string, bool) {
+	switch x := e.(type) {
+	case *ast.BasicLit:
+		if x.Kind != token.STRING {
+			return "", false
+		}
+		s, err := strconv.Unquote(x.Value)
+		return s, err == nil
+	case *ast.Ident:
+		s, ok := c.consts[x.Name]
+		return s, ok
+	case *ast.ParenExpr:
+		return c.strLit(x.X)
 	}
+	return "", false
+}
+
+func (c *fmCtx) addConsts(d ast.Decl) bool {
+	gd, ok := d.(*ast.GenDecl)
+	if !ok || gd.Tok != token.CONST {
+		return false
+	}
+	for _, sp := range gd.Specs {
+		vs := sp.(*ast.ValueSpec)
+		for i, n := range vs.Names {
+			if i < len(vs.Values) {
+				if s, ok := c.strLit(vs.Values[i]); ok {
+					c.consts[n.Name] = s
+				}
+			}
+		}
+	}
+	return true
+}
+
+// template recognises the anchoring of `arg`: fmt.Sprintf(<format>, arg) or a concatenation
+// of string constants and arg; returns the format with %s for arg.
+func (c *fmCtx) template(e ast.Expr, arg string) (string, bool) {
+	if call, ok := e.(*ast.CallExpr); ok {
+		if exprString(call.Fun) != "fmt.Sprintf" || len(call.Args) != 2 || !isIdent(call.Args[1], arg) {
+			return "", false
+		}
+		return c.strLit(call.Args[0])
+	}
+	var parts func(e ast.Expr) (string, bool)
+	parts = func(e ast.Expr) (string, bool) {
+		if isIdent(e, arg) {
+			return "%s", true
+		}
+		if s, ok := c.strLit(e); ok {
+			return strings.ReplaceAll(s, "%", "%%"), true
+		}
+		if p, ok := e.(*ast.ParenExpr); ok {
+			return parts(p.X)
+		}
+		if b, ok := e.(*ast.BinaryExpr); ok && b.Op == token.ADD {
+			l, ok1 := parts(b.X)
+			r, ok2 := parts(b.Y)
+			return l + r, ok1 && ok2
+		}
+		return "", false
+	}
+	f, ok := parts(e)
+	if !ok || strings.Count(f, "%s") != 1 {
+		return "", false
+	}
+	return f, true
+}
+
+// compileCall recognises regexp.Compile(<x>) / regexp.MustCompile is not accepted.
+func compileCall(e ast.Expr) (ast.Expr, bool) {
+	c, ok := e.(*ast.CallExpr)
+	if !ok || exprString(c.Fun) != "regexp.Compile" || len(c.Args) != 1 {
+		return nil, false
+	}
+	return c.Args[0], true
+}
+
+// errReturn recognises a block `return nil, <non-nil>` (the error text is irrelevant).
+func errReturn(b *ast.BlockStmt) bool {
+	if len(b.List) != 1 {
+		return false
+	}
+	r, ok := b.List[0].(*ast.ReturnStmt)
+	return ok && len(r.Results) == 2 && isIdent(r.Results[0], "nil") && !isIdent(r.Results[1], "nil")
+}
+
+// errCheck recognises `if <e> != nil { return nil, … }`.
+func errCheck(st ast.Stmt, e string) bool {
+	s, ok := st.(*ast.IfStmt)
+	if !ok || s.Init != nil || s.Else != nil {
+		return false
+	}
+	b, ok := s.Cond.(*ast.BinaryExpr)
+	return ok && b.Op == token.NEQ && isIdent(b.X, e) && isIdent(b.Y, "nil") && errReturn(s.Body)
+}
+
+// validateStmts recognises the validate-alone step on `arg` at the head of stmts; returns how many
+// statements it takes (0 = not there).
+func validateStmts(stmts []ast.Stmt, arg string) int {
+	if len(stmts) == 0 {
+		return 0
+	}
+	// if _, err := regexp.Compile(arg); err != nil { return nil, … }
+	if s, ok := stmts[0].(*ast.IfStmt); ok && s.Init != nil && s.Else == nil {
+		if as, ok := s.Init.(*ast.AssignStmt); ok && len(as.Lhs) == 2 && len(as.Rhs) == 1 && isIdent(as.Lhs[0], "_") {
+			if x, ok := compileCall(as.Rhs[0]); ok && isIdent(x, arg) {
+				e := exprString(as.Lhs[1])
+				if b, ok := s.Cond.(*ast.BinaryExpr); ok && b.Op == token.NEQ && isIdent(b.X, e) && isIdent(b.Y, "nil") && errReturn(s.Body) {
+					return 1
+				}
+			}
+		}
+	}
+	// _, err := regexp.Compile(arg); if err != nil { return nil, … }
+	if as, ok := stmts[0].(*ast.AssignStmt); ok && len(stmts) >= 2 && len(as.Lhs) == 2 && len(as.Rhs) == 1 && isIdent(as.Lhs[0], "_") {
+		if x, ok := compileCall(as.Rhs[0]); ok && isIdent(x, arg) && errCheck(stmts[1], exprString(as.Lhs[1])) {
+			return 2
+		}
+	}
+	return 0
+}
+
+// helperSteps translates a helper func(<p> string) (*regexp.Regexp, error).
+func (c *fmCtx) helperSteps(fd *ast.FuncDecl) ([]string, error) {
+	if fd.Type.Params == nil || len(fd.Type.Params.List) != 1 || len(fd.Type.Params.List[0].Names) != 1 ||
+		exprString(fd.Type.Params.List[0].Type) != "string" || fd.Type.Results == nil || len(fd.Type.Results.List) != 2 ||
+		exprString(fd.Type.Results.List[0].Type) != "*regexp.Regexp" || exprString(fd.Type.Results.List[1].Type) != "error" {
+		return nil, fmt.Errorf("%s: unsupported signature %s", fd.Name.Name, exprString(fd.Type))
+	}
+	p := fd.Type.Params.List[0].Names[0].Name
+	stmts := fd.Body.List
 	var steps []string
-	for _, st := range fd.Body.List {
-		switch s := st.(type) {
-		case *ast.IfStmt:
-			as, ok := s.Init.(*ast.AssignStmt)
-			if !ok || s.Else != nil || len(as.Lhs) != 2 || len(as.Rhs) != 1 || exprString(as.Lhs[0]) != "_" || exprString(as.Lhs[1]) != "err" ||
-				exprString(s.Cond) != "err != nil" || len(s.Body.List) != 1 || exprString(s.Body.List[0]) != "return nil, err" {
-				return nil, fmt.Errorf("compileAnchored: unsupported statement %s", exprString(s))
+	// flipped form: if _, err := regexp.Compile(p); err == nil { return <wrap> } [else { return nil, err }] [return nil, err]
+	if len(stmts) >= 1 {
+		if s, ok := stmts[0].(*ast.IfStmt); ok && s.Init != nil {
+			if as, ok := s.Init.(*ast.AssignStmt); ok && len(as.Lhs) == 2 && len(as.Rhs) == 1 && isIdent(as.Lhs[0], "_") {
+				if x, ok := compileCall(as.Rhs[0]); ok && isIdent(x, p) {
+					e := exprString(as.Lhs[1])
+					if b, ok := s.Cond.(*ast.BinaryExpr); ok && b.Op == token.EQL && isIdent(b.X, e) && isIdent(b.Y, "nil") && len(s.Body.List) == 1 {
+						tail := stmts[1:]
+						okTail := false
+						if eb, ok := s.Else.(*ast.BlockStmt); ok && errReturn(eb) && len(tail) == 0 {
+							okTail = true
+						}
+						if s.Else == nil && len(tail) == 1 {
+							if r, ok := tail[0].(*ast.ReturnStmt); ok && len(r.Results) == 2 && isIdent(r.Results[0], "nil") && !isIdent(r.Results[1], "nil") {
+								okTail = true
+							}
+						}
+						if r, ok := s.Body.List[0].(*ast.ReturnStmt); ok && okTail && len(r.Results) == 1 {
+							if x, ok := compileCall(r.Results[0]); ok {
+								if f, ok := c.template(x, p); ok {
+									return []string{".validateAlone", fmt.Sprintf(".wrap %q", f)}, nil
+								}
+							}
+						}
+					}
+				}
 			}
-			c, ok := as.Rhs[0].(*ast.CallExpr)
-			if !ok || exprString(c.Fun) != "regexp.Compile" || len(c.Args) != 1 || !isIdent(c.Args[0], "expr") {
-				return nil, fmt.Errorf("compileAnchored: unsupported validation %s", exprString(as))
+		}
+	}
+	for len(stmts) > 0 {
+		if _, ok := stmts[0].(*ast.DeclStmt); ok {
+			if gd, ok := stmts[0].(*ast.DeclStmt).Decl.(*ast.GenDecl); ok && c.addConsts(gd) {
+				stmts = stmts[1:]
+				continue
 			}
+		}
+		if n := validateStmts(stmts, p); n > 0 {
 			steps = append(steps, ".validateAlone")
-		case *ast.ReturnStmt:
-			if len(s.Results) != 1 {
-				return nil, fmt.Errorf("compileAnchored: unsupported return %s", exprString(s))
-			}
-			c, ok := s.Results[0].(*ast.CallExpr)
-			if !ok {
-				return nil, fmt.Errorf("compileAnchored: unsupported return %s", exprString(s))
-			}
-			format, arg, ok := sprintfTemplate(c)
-			if !ok || arg != "expr" {
-				return nil, fmt.Errorf("compileAnchored: unsupported return %s", exprString(s))
-			}
-			steps = append(steps, fmt.Sprintf(".wrap %q", format))
-		default:
-			return nil, fmt.Errorf("compileAnchored: unsupported statement %s", exprString(st))
+			stmts = stmts[n:]
+			continue
 		}
+		if r, ok := stmts[0].(*ast.ReturnStmt); ok && len(stmts) == 1 && len(r.Results) == 1 {
+			if x, ok := compileCall(r.Results[0]); ok {
+				if f, ok := c.template(x, p); ok {
+					steps = append(steps, fmt.Sprintf(".wrap %q", f))
+					return steps, nil
+				}
+			}
+		}
+		return nil, fmt.Errorf("%s: unsupported statement %s", fd.Name.Name, exprString(stmts[0]))
 	}
-	return steps, nil
+	return nil, fmt.Errorf("%s: no compiled expression is returned", fd.Name.Name)
 }
 
-type reSite struct{ v, arg, how string }
-
-// compileSite recognises `<v>, err := compileAnchored(<arg>)` / `<v>, err := regexp.Compile(fmt.Sprintf(lit, <arg>))`.
-func compileSite(st ast.Stmt) (reSite, bool, error) {
-	as, ok := st.(*ast.AssignStmt)
-	if !ok || len(as.Rhs) != 1 {
-		return reSite{}, false, nil
+// site recognises `<v>, <e> := <helper>(<arg>)` or `<v>, <e> := regexp.Compile(<template of arg>)`;
+// returns the variable, the error variable, the argument and the compile steps.
+func (c *fmCtx) site(f *ast.File, st ast.Stmt) (v, e, arg string, steps []string, ok bool, err error) {
+	as, isAs := st.(*ast.AssignStmt)
+	if !isAs || len(as.Rhs) != 1 || len(as.Lhs) != 2 {
+		return
 	}
-	c, ok := as.Rhs[0].(*ast.CallExpr)
-	if !ok {
-		return reSite{}, false, nil
+	call, isCall := as.Rhs[0].(*ast.CallExpr)
+	if !isCall {
+		return
 	}
-	fn := exprString(c.Fun)
-	if fn != "compileAnchored" && !strings.HasPrefix(fn, "regexp.") {
-		return reSite{}, false, nil
-	}
-	if len(as.Lhs) != 2 || exprString(as.Lhs[1]) != "err" {
-		return reSite{}, false, fmt.Errorf("unsupported compile statement %s", exprString(st))
-	}
-	v := exprString(as.Lhs[0])
-	if fn == "compileAnchored" {
-		if len(c.Args) != 1 {
-			return reSite{}, false, fmt.Errorf("unsupported call %s", exprString(c))
+	v, e = exprString(as.Lhs[0]), exprString(as.Lhs[1])
+	if x, isC := compileCall(call); isC {
+		// paste-then-compile at the site: find the argument among the identifiers of the template
+		var found string
+		ast.Inspect(x, func(n ast.Node) bool {
+			if id, ok := n.(*ast.Ident); ok && found == "" {
+				if _, isConst := c.consts[id.Name]; !isConst && id.Name != "fmt" && id.Name != "Sprintf" {
+					found = id.Name
+				}
+			}
+			return true
+		})
+		fmtS, okT := c.template(x, found)
+		if !okT {
+			err = fmt.Errorf("unsupported use of package regexp: %s", exprString(call))
+			return
 		}
-		id, ok := c.Args[0].(*ast.Ident)
-		if !ok {
-			return reSite{}, false, fmt.Errorf("compileAnchored of a non-identifier: %s", exprString(c))
+		return v, e, found, []string{fmt.Sprintf(".wrap %q", fmtS)}, true, nil
+	}
+	fn, isId := call.Fun.(*ast.Ident)
+	if !isId || len(call.Args) != 1 {
+		return
+	}
+	h := findFunc(f, "", fn.Name)
+	if h == nil || h.Type.Results == nil || len(h.Type.Results.List) != 2 || exprString(h.Type.Results.List[0].Type) != "*regexp.Regexp" {
+		return
+	}
+	id, isArg := call.Args[0].(*ast.Ident)
+	if !isArg {
+		err = fmt.Errorf("%s of a non-identifier: %s", fn.Name, exprString(call))
+		return
+	}
+	st2, ok2 := c.helpers[fn.Name]
+	if !ok2 {
+		st2, err = c.helperSteps(h)
+		if err != nil {
+			return
 		}
-		return reSite{v, id.Name, "compileAnchored"}, true, nil
+		c.helpers[fn.Name] = st2
 	}
-	format, arg, ok := sprintfTemplate(c)
-	if !ok {
-		return reSite{}, false, fmt.Errorf("unsupported use of package regexp: %s", exprString(c))
-	}
-	return reSite{v, arg, "Sprintf:" + format}, true, nil
+	return v, e, id.Name, st2, true, nil
 }
 
-// matchCall recognises !<re>.MatchString(<subject>).
-func negMatch(e ast.Expr) (re, subject string, ok bool) {
+// nonEmpty recognises p != "" / "" != p / len(p) > 0 / len(p) != 0 and returns p.
+func nonEmpty(e ast.Expr) (string, bool) {
+	if p, ok := e.(*ast.ParenExpr); ok {
+		return nonEmpty(p.X)
+	}
+	b, ok := e.(*ast.BinaryExpr)
+	if !ok {
+		return "", false
+	}
+	isEmpty := func(x ast.Expr) bool { l, ok := x.(*ast.BasicLit); return ok && l.Value == `""` }
+	if b.Op == token.NEQ {
+		if id, ok := b.X.(*ast.Ident); ok && isEmpty(b.Y) {
+			return id.Name, true
+		}
+		if id, ok := b.Y.(*ast.Ident); ok && isEmpty(b.X) {
+			return id.Name, true
+		}
+	}
+	if (b.Op == token.GTR || b.Op == token.NEQ) && isLit(b.Y, "0") {
+		if c, ok := b.X.(*ast.CallExpr); ok && isIdent(c.Fun, "len") && len(c.Args) == 1 {
+			if id, ok := c.Args[0].(*ast.Ident); ok {
+				return id.Name, true
+			}
+		}
+	}
+	return "", false
+}
+
+// negMatch recognises !<re>.MatchString(<subject>).
+func negMatch(e ast.Expr) (re, subject ast.Expr, ok bool) {
+	if p, isP := e.(*ast.ParenExpr); isP {
+		return negMatch(p.X)
+	}
 	u, ok := e.(*ast.UnaryExpr)
 	if !ok || u.Op != token.NOT {
-		return "", "", false
+		return nil, nil, false
 	}
 	c, ok := u.X.(*ast.CallExpr)
 	if !ok || len(c.Args) != 1 {
-		return "", "", false
+		return nil, nil, false
 	}
 	sel, ok := c.Fun.(*ast.SelectorExpr)
 	if !ok || sel.Sel.Name != "MatchString" {
-		return "", "", false
+		return nil, nil, false
 	}
-	return exprString(sel.X), exprString(c.Args[0]), true
+	return sel.X, c.Args[0], true
 }
 
+// isContinue: the block is a single `continue` ("" = to the innermost loop, otherwise to that label;
+// anyOuter accepts both a bare continue and a continue to the given label).
 func isContinue(b *ast.BlockStmt, label string) bool {
 	if len(b.List) != 1 {
 		return false
@@ -155,6 +343,8 @@ func isContinue(b *ast.BlockStmt, label string) bool {
 	return br.Label != nil && br.Label.Name == label
 }
 
+func sameSteps(a, b []string) bool { return strings.Join(a, "|") == strings.Join(b, "|") }
+
 func genAnchorTemplate(repo string) (string, error) {
 	_, f, err := parseFile(repo + "/cmd/serf/command/agent/ipc.go")
 	if err != nil {
@@ -164,61 +354,150 @@ func genAnchorTemplate(repo string) (string, error) {
 	if fd == nil {
 		return "", fmt.Errorf("filterMembers not found")
 	}
-	if sig := exprString(fd.Type); sig != "func(members []serf.Member, tags map[string]string, status string, name string) ([]serf.Member, error)" {
-		return "", fmt.Errorf("filterMembers signature %s", sig)
+	c := &fmCtx{consts: map[string]string{}, siteArg: map[string]string{}, helpers: map[string][]string{}}
+	for _, d := range f.Decls {
+		c.addConsts(d)
 	}
-	var sites []reSite
-	var errReturns []string
+	// parameters by position and type
+	var ptypes, pnames []string
+	for _, p := range fd.Type.Params.List {
+		for _, n := range p.Names {
+			pnames = append(pnames, n.Name)
+			ptypes = append(ptypes, exprString(p.Type))
+		}
+	}
+	if strings.Join(ptypes, ";") != "[]serf.Member;map[string]string;string;string" || fd.Type.Results == nil || len(fd.Type.Results.List) != 2 ||
+		exprString(fd.Type.Results.List[0].Type) != "[]serf.Member" || exprString(fd.Type.Results.List[1].Type) != "error" {
+		return "", fmt.Errorf("filterMembers signature %s", exprString(fd.Type))
+	}
+	c.members, c.tags, c.status, c.name = pnames[0], pnames[1], pnames[2], pnames[3]
+
+	var steps []string
+	setSteps := func(s []string) error {
+		if steps == nil {
+			steps = s
+			return nil
+		}
+		if !sameSteps(steps, s) {
+			return fmt.Errorf("the filter expressions are not all compiled the same way: %v vs %v", steps, s)
+		}
+		return nil
+	}
+	compiled := map[string]bool{} // roles compiled: "tags[tag]", "status", "name"
+	nilOnError := true
 	var loop *ast.RangeStmt
 	label := ""
 	sawReturn := false
-	for _, st := range fd.Body.List {
+	stmts := fd.Body.List
+	for i := 0; i < len(stmts); i++ {
+		st := stmts[i]
 		if sawReturn {
 			return "", fmt.Errorf("statement after the final return")
 		}
+		// inline validation before a site: if _, err := regexp.Compile(p); …
+		for _, role := range []string{c.status, c.name} {
+			if n := validateStmts(stmts[i:], role); n > 0 && i+n < len(stmts) {
+				v, e, arg, st2, ok, err := c.site(f, stmts[i+n])
+				if err != nil {
+					return "", err
+				}
+				if ok && arg == role && i+n+1 < len(stmts) && errCheck(stmts[i+n+1], e) {
+					if err := setSteps(append([]string{".validateAlone"}, st2...)); err != nil {
+						return "", err
+					}
+					c.siteArg[v] = map[string]string{c.status: "status", c.name: "name"}[arg]
+					compiled[c.siteArg[v]] = true
+					i += n + 1
+					st = nil
+				}
+				break
+			}
+		}
+		if st == nil {
+			continue
+		}
 		switch s := st.(type) {
-		case *ast.AssignStmt:
-			if site, ok, err := compileSite(s); err != nil {
-				return "", err
-			} else if ok {
-				sites = append(sites, site)
+		case *ast.DeclStmt:
+			gd, ok := s.Decl.(*ast.GenDecl)
+			if ok && c.addConsts(gd) {
 				continue
 			}
-			txt := exprString(s)
-			if txt != "result := make([]serf.Member, 0, len(members))" && txt != "tagsRe := make(map[string]*regexp.Regexp)" {
-				return "", fmt.Errorf("unsupported statement %s", txt)
+			if ok && gd.Tok == token.VAR && len(gd.Specs) == 1 {
+				vs := gd.Specs[0].(*ast.ValueSpec)
+				if len(vs.Names) == 1 && vs.Type != nil && len(vs.Values) == 0 && exprString(vs.Type) == "[]serf.Member" && c.result == "" {
+					c.result = vs.Names[0].Name
+					continue
+				}
 			}
+			return "", fmt.Errorf("unsupported declaration %s", exprString(s))
+		case *ast.AssignStmt:
+			if v, e, arg, st2, ok, err := c.site(f, s); err != nil {
+				return "", err
+			} else if ok {
+				role := map[string]string{c.status: "status", c.name: "name"}[arg]
+				if role == "" || compiled[role] {
+					return "", fmt.Errorf("unsupported compile statement %s", exprString(s))
+				}
+				if i+1 >= len(stmts) || !errCheck(stmts[i+1], e) {
+					nilOnError = false
+					return "", fmt.Errorf("the error of %s is not returned (with a nil list) right away", exprString(s))
+				}
+				if err := setSteps(st2); err != nil {
+					return "", err
+				}
+				c.siteArg[v] = role
+				compiled[role] = true
+				i++
+				continue
+			}
+			if len(s.Lhs) == 1 && len(s.Rhs) == 1 && s.Tok == token.DEFINE {
+				rhs := exprString(s.Rhs[0])
+				lhs := exprString(s.Lhs[0])
+				switch {
+				case (strings.HasPrefix(rhs, "make([]serf.Member, 0") || rhs == "[]serf.Member{}") && c.result == "":
+					c.result = lhs
+					continue
+				case (strings.HasPrefix(rhs, "make(map[string]*regexp.Regexp") || rhs == "map[string]*regexp.Regexp{}") && c.tagsRe == "":
+					c.tagsRe = lhs
+					continue
+				}
+			}
+			return "", fmt.Errorf("unsupported statement %s", exprString(s))
 		case *ast.RangeStmt:
-			// the tag pre-compile loop
-			if exprString(s.X) != "tags" || exprString(s.Key) != "tag" || s.Value == nil || len(s.Body.List) != 3 {
+			if isIdent(s.X, c.members) && loop == nil {
+				loop = s // an unlabeled member loop
+				continue
+			}
+			// the tag pre-compile loop: for K, V := range tags { [validate V;] re, err := <compile>(V); if err != nil { return nil, … }; tagsRe[K] = re }
+			if !isIdent(s.X, c.tags) || s.Key == nil || s.Value == nil || c.tagsRe == "" || compiled["tags[tag]"] {
 				return "", fmt.Errorf("unsupported loop over %s", exprString(s.X))
 			}
-			site, ok, err := compileSite(s.Body.List[0])
-			if err != nil || !ok || site.arg != exprString(s.Value) {
-				return "", fmt.Errorf("tag loop does not compile its value: %s", exprString(s.Body.List[0]))
+			k, val := exprString(s.Key), exprString(s.Value)
+			body := s.Body.List
+			pre := []string{}
+			if n := validateStmts(body, val); n > 0 {
+				pre = []string{".validateAlone"}
+				body = body[n:]
 			}
-			ifs, ok := s.Body.List[1].(*ast.IfStmt)
-			if !ok || exprString(ifs.Cond) != "err != nil" || len(ifs.Body.List) != 1 {
-				return "", fmt.Errorf("tag loop: unsupported %s", exprString(s.Body.List[1]))
+			if len(body) != 3 {
+				return "", fmt.Errorf("tag loop: unsupported body %s", exprString(s.Body))
 			}
-			ret, ok := ifs.Body.List[0].(*ast.ReturnStmt)
-			if !ok || len(ret.Results) != 2 {
-				return "", fmt.Errorf("tag loop: unsupported %s", exprString(ifs))
+			v, e, arg, st2, ok, err := c.site(f, body[0])
+			if err != nil {
+				return "", err
 			}
-			errReturns = append(errReturns, exprString(ret.Results[0]))
-			if exprString(s.Body.List[2]) != "tagsRe[tag] = "+site.v {
-				return "", fmt.Errorf("tag loop: unsupported %s", exprString(s.Body.List[2]))
+			if !ok || arg != val || !errCheck(body[1], e) {
+				return "", fmt.Errorf("tag loop does not compile its value and return its error: %s", exprString(s.Body))
 			}
-			sites = append(sites, reSite{"tagsRe[tag]", "tags[tag]", site.how})
-		case *ast.IfStmt:
-			if exprString(s.Cond) != "err != nil" || s.Init != nil || s.Else != nil || len(s.Body.List) != 1 {
-				return "", fmt.Errorf("unsupported statement %s", exprString(s))
+			l, r, okA := singleAssign(body[2])
+			ix, okI := l.(*ast.IndexExpr)
+			if !okA || !okI || !isIdent(ix.X, c.tagsRe) || !isIdent(ix.Index, k) || !isIdent(r, v) {
+				return "", fmt.Errorf("tag loop: unsupported %s", exprString(body[2]))
 			}
-			ret, ok := s.Body.List[0].(*ast.ReturnStmt)
-			if !ok || len(ret.Results) != 2 {
-				return "", fmt.Errorf("unsupported statement %s", exprString(s))
+			if err := setSteps(append(pre, st2...)); err != nil {
+				return "", err
 			}
-			errReturns = append(errReturns, exprString(ret.Results[0]))
+			compiled["tags[tag]"] = true
 		case *ast.LabeledStmt:
 			r, ok := s.Stmt.(*ast.RangeStmt)
 			if !ok || loop != nil {
@@ -226,7 +505,7 @@ func genAnchorTemplate(repo string) (string, error) {
 			}
 			loop, label = r, s.Label.Name
 		case *ast.ReturnStmt:
-			if exprString(s) != "return result, nil" {
+			if len(s.Results) != 2 || !isIdent(s.Results[0], c.result) || !isIdent(s.Results[1], "nil") {
 				return "", fmt.Errorf("unsupported final return %s", exprString(s))
 			}
 			sawReturn = true
@@ -234,142 +513,206 @@ func genAnchorTemplate(repo string) (string, error) {
 			return "", fmt.Errorf("unsupported statement %s", exprString(st))
 		}
 	}
-	if loop == nil || !sawReturn {
-		return "", fmt.Errorf("member loop or final return not found")
+	if loop == nil || !sawReturn || c.result == "" {
+		return "", fmt.Errorf("member loop, result list or final return not found")
 	}
-	if exprString(loop.X) != "members" || exprString(loop.Key) != "_" || exprString(loop.Value) != "m" {
-		return "", fmt.Errorf("member loop is not `for _, m := range members`")
+	if !compiled["tags[tag]"] || !compiled["status"] || !compiled["name"] {
+		return "", fmt.Errorf("not every filter expression is compiled: %v", compiled)
 	}
-	siteArg := map[string]string{}
-	for _, s := range sites {
-		siteArg[s.v] = s.arg
-	}
-	var guards []string
+	// the member loop: for _, m := range members   |   for i := range members { m := members[i]; … }
 	body := loop.Body.List
-	if len(body) == 0 || exprString(body[len(body)-1]) != "result = append(result, m)" {
-		return "", fmt.Errorf("member loop does not end with result = append(result, m)")
+	var m string
+	switch {
+	case isIdent(loop.X, c.members) && isIdent(loop.Key, "_") && loop.Value != nil:
+		m = exprString(loop.Value)
+	case isIdent(loop.X, c.members) && loop.Key != nil && loop.Value == nil && len(body) > 0:
+		as, ok := body[0].(*ast.AssignStmt)
+		if !ok || len(as.Lhs) != 1 || len(as.Rhs) != 1 || exprString(as.Rhs[0]) != c.members+"["+exprString(loop.Key)+"]" {
+			return "", fmt.Errorf("unsupported member loop header")
+		}
+		m = exprString(as.Lhs[0])
+		body = body[1:]
+	default:
+		return "", fmt.Errorf("the member loop does not range over the members")
 	}
+	if len(body) == 0 || exprString(body[len(body)-1]) != fmt.Sprintf("%s = append(%s, %s)", c.result, c.result, m) {
+		return "", fmt.Errorf("member loop does not end by appending the member to the result")
+	}
+	outerContinue := func(b *ast.BlockStmt, inner bool) bool {
+		if inner {
+			return label != "" && isContinue(b, label)
+		}
+		return isContinue(b, "") || (label != "" && isContinue(b, label))
+	}
+	tagRead := func(e ast.Expr, k string) bool { return exprString(e) == m+".Tags["+k+"]" }
+	var guards []string
+	seenField := map[string]bool{}
 	for _, st := range body[:len(body)-1] {
 		switch s := st.(type) {
 		case *ast.RangeStmt:
-			switch {
-			case exprString(s.X) == "tags" && exprString(s.Key) == "tag" && s.Value == nil && len(s.Body.List) == 1:
+			if s.Key == nil {
+				return "", fmt.Errorf("unsupported loop in the member loop: %s", exprString(s))
+			}
+			k := exprString(s.Key)
+			// which compiled expression does the guard use?
+			reOK := func(re ast.Expr) bool {
+				if isIdent(s.X, c.tags) && (s.Value == nil || isIdent(s.Value, "_")) {
+					return exprString(re) == c.tagsRe+"["+k+"]"
+				}
+				if isIdent(s.X, c.tagsRe) && s.Value != nil {
+					return isIdent(re, exprString(s.Value))
+				}
+				return false
+			}
+			switch len(s.Body.List) {
+			case 1:
 				ifs, ok := s.Body.List[0].(*ast.IfStmt)
-				if !ok || ifs.Init != nil || ifs.Else != nil || !isContinue(ifs.Body, label) {
+				if !ok || ifs.Init != nil || ifs.Else != nil || !outerContinue(ifs.Body, true) {
 					return "", fmt.Errorf("unsupported tag guard %s", exprString(s))
 				}
 				re, subj, ok := negMatch(ifs.Cond)
-				if !ok || re != "tagsRe[tag]" || subj != "m.Tags[tag]" {
+				if !ok || !reOK(re) || !tagRead(subj, k) {
 					return "", fmt.Errorf("unsupported tag guard %s", exprString(ifs.Cond))
 				}
 				guards = append(guards, ".tags .valueOrEmpty")
-			case exprString(s.X) == "tagsRe" && exprString(s.Key) == "tag" && s.Value != nil && len(s.Body.List) == 2:
-				re := exprString(s.Value)
-				if exprString(s.Body.List[0]) != "val, ok := m.Tags[tag]" {
-					return "", fmt.Errorf("unsupported tag guard %s", exprString(s.Body.List[0]))
-				}
-				ifs, ok := s.Body.List[1].(*ast.IfStmt)
-				if !ok || ifs.Init != nil || ifs.Else != nil || !isContinue(ifs.Body, label) {
+			case 2:
+				as, ok := s.Body.List[0].(*ast.AssignStmt)
+				ifs, ok2 := s.Body.List[1].(*ast.IfStmt)
+				if !ok || !ok2 || len(as.Lhs) != 2 || len(as.Rhs) != 1 || !tagRead(as.Rhs[0], k) || ifs.Init != nil || ifs.Else != nil || !outerContinue(ifs.Body, true) {
 					return "", fmt.Errorf("unsupported tag guard %s", exprString(s))
 				}
+				val, present := exprString(as.Lhs[0]), exprString(as.Lhs[1])
 				be, ok := ifs.Cond.(*ast.BinaryExpr)
-				if !ok || be.Op != token.LOR || exprString(be.X) != "!ok" {
+				if !ok || be.Op != token.LOR || exprString(be.X) != "!"+present {
 					return "", fmt.Errorf("unsupported tag guard %s", exprString(ifs.Cond))
 				}
-				r2, subj, ok := negMatch(be.Y)
-				if !ok || r2 != re || subj != "val" {
+				re, subj, ok := negMatch(be.Y)
+				if !ok || !reOK(re) || !isIdent(subj, val) {
 					return "", fmt.Errorf("unsupported tag guard %s", exprString(ifs.Cond))
 				}
 				guards = append(guards, ".tags .presentOnly")
 			default:
-				return "", fmt.Errorf("unsupported loop in the member loop: %s", exprString(s))
+				return "", fmt.Errorf("unsupported tag guard %s", exprString(s))
 			}
 		case *ast.IfStmt:
-			if s.Init != nil || s.Else != nil || !isContinue(s.Body, "") {
+			if s.Init != nil || s.Else != nil {
 				return "", fmt.Errorf("unsupported guard %s", exprString(s))
 			}
 			cond := s.Cond
+			blk := s.Body
 			skip, pat := "false", ""
 			if be, ok := cond.(*ast.BinaryExpr); ok && be.Op == token.LAND {
-				l, ok := be.X.(*ast.BinaryExpr)
-				if !ok || l.Op != token.NEQ || exprString(l.Y) != `""` {
+				p, ok := nonEmpty(be.X)
+				if !ok {
 					return "", fmt.Errorf("unsupported guard %s", exprString(cond))
 				}
-				skip, pat, cond = "true", exprString(l.X), be.Y
+				skip, pat, cond = "true", p, be.Y
+			} else if p, ok := nonEmpty(cond); ok && len(blk.List) == 1 {
+				// nested: if p != "" { if !re.MatchString(subject) { continue } }
+				in, ok := blk.List[0].(*ast.IfStmt)
+				if !ok || in.Init != nil || in.Else != nil {
+					return "", fmt.Errorf("unsupported guard %s", exprString(s))
+				}
+				skip, pat, cond, blk = "true", p, in.Cond, in.Body
+			}
+			if !outerContinue(blk, false) {
+				return "", fmt.Errorf("unsupported guard %s", exprString(s))
 			}
 			re, subj, ok := negMatch(cond)
 			if !ok {
 				return "", fmt.Errorf("unsupported guard %s", exprString(s.Cond))
 			}
-			arg, known := siteArg[re]
-			if !known || (pat != "" && pat != arg) {
-				return "", fmt.Errorf("guard %s: %s is not the expression compiled from %s", exprString(s.Cond), re, pat)
+			role, known := c.siteArg[exprString(re)]
+			if !known {
+				return "", fmt.Errorf("guard %s: %s is not a compiled filter expression", exprString(s.Cond), exprString(re))
+			}
+			patRole := map[string]string{c.status: "status", c.name: "name"}[pat]
+			if pat != "" && patRole != role {
+				return "", fmt.Errorf("guard %s: emptiness of %s guards the %s filter", exprString(s.Cond), pat, role)
 			}
 			var field string
 			switch {
-			case arg == "status" && subj == "m.Status.String()":
+			case role == "status" && exprString(subj) == m+".Status.String()":
 				field = ".status"
-			case arg == "name" && subj == "m.Name":
+			case role == "name" && exprString(subj) == m+".Name":
 				field = ".name"
 			default:
-				return "", fmt.Errorf("guard %s: the %s filter is matched against %s", exprString(s.Cond), arg, subj)
+				return "", fmt.Errorf("guard %s: the %s filter is matched against %s", exprString(s.Cond), role, exprString(subj))
 			}
+			if seenField[field] {
+				return "", fmt.Errorf("two guards for %s", field)
+			}
+			seenField[field] = true
 			guards = append(guards, fmt.Sprintf(".field %s %s", field, skip))
 		default:
 			return "", fmt.Errorf("unsupported statement in the member loop: %s", exprString(st))
 		}
 	}
-	var steps []string
-	usesHelper := false
-	for _, s := range sites {
-		if s.how == "compileAnchored" {
-			usesHelper = true
+
+	// the guards are independent, side-effect-free conjuncts (a member is kept iff it passes all of them):
+	// their order in the source is irrelevant, so they are emitted in a canonical order
+	rank := func(g string) int {
+		switch {
+		case strings.HasPrefix(g, ".tags"):
+			return 0
+		case strings.HasPrefix(g, ".field .status"):
+			return 1
+		}
+		return 2
+	}
+	for i := 1; i < len(guards); i++ {
+		for j := i; j > 0 && rank(guards[j]) < rank(guards[j-1]); j-- {
+			guards[j], guards[j-1] = guards[j-1], guards[j]
 		}
 	}
-	if h := findFunc(f, "", "compileAnchored"); h != nil {
-		steps, err = helperSteps(h)
-		if err != nil {
-			return "", err
-		}
-	} else if usesHelper {
-		return "", fmt.Errorf("compileAnchored is called but not declared in ipc.go")
-	}
-	if !usesHelper {
-		// paste-then-compile at the sites: the compile steps are the single wrap of the (common) format
-		steps = nil
-		for _, s := range sites {
-			if s.v == "re" {
-				continue
-			}
-			st := fmt.Sprintf(".wrap %q", strings.TrimPrefix(s.how, "Sprintf:"))
-			if len(steps) == 0 {
-				steps = []string{st}
-			} else if steps[0] != st {
-				return "", fmt.Errorf("the compile sites use different templates")
-			}
-		}
-	}
-	// handleMembers: what follows the call
+
+	// handleMembers: the filter's error is returned before anything is sent
 	hm := findFunc(f, "AgentIPC", "handleMembers")
 	if hm == nil {
 		return "", fmt.Errorf("handleMembers not found")
 	}
-	onError := ""
+	handlerOK, reqFields := false, ""
 	ast.Inspect(hm.Body, func(n ast.Node) bool {
 		b, ok := n.(*ast.BlockStmt)
 		if !ok {
 			return true
 		}
 		for i, st := range b.List {
-			if as, ok := st.(*ast.AssignStmt); ok && len(as.Rhs) == 1 && strings.HasPrefix(exprString(as.Rhs[0]), "i.filterMembers(") {
-				onError = "call:" + exprString(as)
-				if i+1 < len(b.List) {
-					onError += " | next:" + strings.Join(strings.Fields(exprString(b.List[i+1])), " ")
+			as, ok := st.(*ast.AssignStmt)
+			if !ok || len(as.Rhs) != 1 || len(as.Lhs) != 2 {
+				continue
+			}
+			call, ok := as.Rhs[0].(*ast.CallExpr)
+			if !ok {
+				continue
+			}
+			sel, ok := call.Fun.(*ast.SelectorExpr)
+			if !ok || sel.Sel.Name != "filterMembers" || len(call.Args) != 4 {
+				continue
+			}
+			var fs []string
+			for _, a := range call.Args[1:] {
+				if s, ok := a.(*ast.SelectorExpr); ok {
+					fs = append(fs, s.Sel.Name)
+				} else {
+					fs = append(fs, "?")
+				}
+			}
+			reqFields = strings.Join(fs, ",")
+			e := exprString(as.Lhs[1])
+			if i+1 < len(b.List) {
+				if ifs, ok := b.List[i+1].(*ast.IfStmt); ok && ifs.Init == nil && ifs.Else == nil && len(ifs.Body.List) == 1 {
+					if be, ok := ifs.Cond.(*ast.BinaryExpr); ok && be.Op == token.NEQ && isIdent(be.X, e) && isIdent(be.Y, "nil") {
+						if r, ok := ifs.Body.List[0].(*ast.ReturnStmt); ok && len(r.Results) == 1 && !isIdent(r.Results[0], "nil") {
+							handlerOK = true
+						}
+					}
 				}
 			}
 		}
 		return true
 	})
+
 	// docs/commands/members.html.markdown: which filter options are documented as a full match
 	docB, err := os.ReadFile(repo + "/docs/commands/members.html.markdown")
 	if err != nil {
@@ -390,31 +733,14 @@ func genAnchorTemplate(repo string) (string, error) {
 	}
 	q := func(l []string) string { return "[" + strings.Join(l, ", ") + "]" }
 	var b strings.Builder
-	b.WriteString("-- GENERATED by /verif/extract from /repo/cmd/serf/command/agent/ipc.go (filterMembers, compileAnchored, handleMembers) — do not edit.\n")
+	b.WriteString("-- GENERATED by /verif/extract from /repo/cmd/serf/command/agent/ipc.go (filterMembers, its compile helper, handleMembers) — do not edit.\n")
 	b.WriteString("import SerfModel.Model.Regex\nnamespace SerfModel.Gen.AnchorTemplate\nopen SerfModel.Regex\n\n")
-	b.WriteString("/-- `compileAnchored`, statement by statement, and the member loop of `filterMembers`, guard by guard -/\n")
+	b.WriteString("/-- how a filter expression is compiled (the same way for every tag value, the status and the name\nfilter), step by step, and the member loop of `filterMembers`, guard by guard -/\n")
 	fmt.Fprintf(&b, "def shape : FilterShape :=\n  { compile := %s\n    guards := %s }\n\n", q(steps), q(guards))
-	b.WriteString("/-- every place `filterMembers` compiles a filter expression: (variable, argument, how) -/\n")
-	b.WriteString("def sites : List (String × String × String) := [")
-	n := 0
-	for _, s := range sites {
-		if s.v == "re" {
-			continue
-		}
-		if n > 0 {
-			b.WriteString(", ")
-		}
-		n++
-		fmt.Fprintf(&b, "(%q, %q, %q)", s.v, s.arg, s.how)
-	}
-	b.WriteString("]\n\n/-- the list returned with an error (first result of every `return` under `if err != nil`) -/\n")
-	var er []string
-	for _, e := range errReturns {
-		er = append(er, fmt.Sprintf("%q", e))
-	}
-	fmt.Fprintf(&b, "def errorReturns : List String := %s\n\n", q(er))
-	b.WriteString("/-- `handleMembers`: the call of the filter and the statement that follows it -/\n")
-	fmt.Fprintf(&b, "def handler : String := %q\n", onError)
+	b.WriteString("/-- every requested tag value, the status filter and the name filter are compiled, each compile error is\nreturned at once, and with a nil list -/\n")
+	fmt.Fprintf(&b, "def compilesAll : Bool := %v\n", compiled["tags[tag]"] && compiled["status"] && compiled["name"] && nilOnError)
+	b.WriteString("\n/-- `handleMembers` passes the request's fields to the filter and returns the filter's error before anything is sent -/\n")
+	fmt.Fprintf(&b, "def handlerRequestFields : String := %q\ndef handlerReturnsError : Bool := %v\n", reqFields, handlerOK)
 	b.WriteString("\n/-- docs/commands/members.html.markdown: every option documented as a regular-expression filter, and\nwhether its paragraph says \"anchored at the start and end, and must be a full match\" -/\n")
 	fmt.Fprintf(&b, "def documentedFilters : List (String × Bool) := %s\n", q(docFacts))
 	b.WriteString("\nend SerfModel.Gen.AnchorTemplate\n")
